@@ -27,14 +27,19 @@ if "def" in ast.unparse(ast.parse("𝕕𝕖𝕗 = 1")):
                 continue
             for field in node._fields:
                 v = getattr(node, field, None)
-                if (
-                    type(v) is str
-                    and keyword.iskeyword(v)
-                    and v not in ("True", "False", "None")
-                ):
-                    # We refer to this transformation as "keyword mincing"
-                    # in documentation.
-                    setattr(node, field, chr(ord(v[0]) - ord("a") + ord("𝐚")) + v[1:])
+                # We refer to this transformation as "keyword mincing"
+                # in documentation.
+                mince = lambda s: (
+                    chr(ord(s[0]) - ord("a") + ord("𝐚")) + s[1:]
+                    if type(s) is str
+                        and keyword.iskeyword(s)
+                        and s not in ("True", "False", "None")
+                    else s)
+                if type(v) is str:
+                    setattr(node, field, mince(v))
+                elif type(v) is list:
+                    # E.g., the names of a `global` statement
+                    setattr(node, field, [mince(e) for e in v])
         return true_unparse(ast_obj)
 
     ast.unparse = rewriting_unparse
